@@ -21,6 +21,25 @@ CHECKS: dict[str, dict[str, str]] = {
         "technique": "TLA+ group-law specification model-checked with TLC; TLC-generated case tables replayed into btclib; real-size events validated by TLC",
         "design_ref": "DESIGN.md section 4 C01",
     },
+    "C02": {
+        "text": ("TLC model-checks the ECDSA sign/verify/recover machine on toy groups (every challenge x key x nonce triple verifies, is low-s "
+                 "when asked, recovers exactly the signer's key; Verify is true for no (r, s) in 0..n+1 outside the SEC 1 set) and the strict DER "
+                 "parser as a byte-at-a-time machine over all strings on a 15-symbol alphabet (accepted => canonical); the tables and strings "
+                 "TLC generates are replayed into dsa.sign_/sign_recoverable_/verify_/recover_*/crack_prv_key_var_/Sig.parse; RFC 6979 nonces, "
+                 "signatures, low-R grinding, key ids, DER bytes and verification verdicts recorded at real size (5 catalogued curves + toy "
+                 "groups, 3 hash functions, both arms) are recomputed by TLC."),
+        "technique": "TLA+ ECDSA / RFC 6979 / DER specification; TLC model checking on toy groups, table replay into btclib, real-size trace validation",
+        "design_ref": "DESIGN.md section 4 C02",
+    },
+    "C03": {
+        "text": ("The BIP340 specification (validated on the BIP's 19 vectors) recomputes byte for byte the signatures btclib makes on secp256k1 "
+                 "(both arms) and 7 other curves x 3 hash functions, and the verdicts of verify_ on boundary (x, r, s); on toy prime-order groups "
+                 "TLC computes the complete acceptance table over every (x, r, s) incl. r = p, s = n and validates recorded batch verdicts with the "
+                 "coefficient vector existentially quantified (a TRUE for a batch with one bad member has no explanation); real-size batches up to "
+                 "the Bos-Coster threshold incl. cancelling pairs must equal the conjunction of single verifications."),
+        "technique": "TLA+ BIP340 specification; TLC-generated acceptance tables replayed into btclib; trace validation with an existentially quantified batch coefficient",
+        "design_ref": "DESIGN.md section 4 C03",
+    },
     "C05": {
         "text": ("TLC checks that the small grammars (CompactSize, var-bytes, witness, TxOut) are canonical over ALL byte strings on a boundary "
                  "alphabet up to a length (WireModel) and the same strings are replayed into btclib's parsers; for every one of the ~55 classes "
@@ -29,6 +48,15 @@ CHECKS: dict[str, dict[str, str]] = {
                  "class-independent canonical round-trip law (all classes), JSON round trip, PSBT fixed point keeping every key-value pair."),
         "technique": "TLA+ wire grammars (serializer + parser per class) model-checked with TLC; recorded parse/serialize events validated against them",
         "design_ref": "DESIGN.md section 4 C05",
+    },
+    "C06": {
+        "text": ("TLC checks on the specification that bech32/bech32m round-trip, that no string at Hamming distance 1 or 2 from a valid one is "
+                 "valid, that bit regrouping is invertible, that address and scriptPubKey are inverse maps on every version x length x network and "
+                 "that no prefix is shared by main and test networks; every recorded decode/encode of Base58Check, bech32(m), segwit address, WIF "
+                 "and address<->script on valid strings and their single-character substitutions, transpositions, case flips, truncations and "
+                 "extensions is recomputed by TLC with the BIPs' reference algorithms."),
+        "technique": "TLA+ transcription of the BIP173/350 reference decoder, Base58Check and address templates; TLC model checking + trace validation",
+        "design_ref": "DESIGN.md section 4 C06",
     },
     "C09": {
         "text": ("TLC checks the commitment matrix of the three algorithms on the specification (SigHashModel: digest changes iff the BIPs "
